@@ -139,7 +139,13 @@ pub fn gen_csv(rng: &mut Rng) -> CsvSpec {
 		// cells keep their blanks: " padded " is not "padded", " 42" is a text and not a number
 		r.insert("kind".to_string(), (*rng.pick(&["primary", "secondary", "with space", "Größe", " padded ", "  indented", "trailing  "])).to_string());
 		r.insert("population".to_string(), if rng.chance(0.1) { format!(" {}", rng.below(1000)) } else { rng.below(100000).to_string() });
-		r.insert("ratio".to_string(), format!("{}.{}", rng.below(10), rng.range(1, 99)));
+		// decimals, also the way R / SQL*Plus exports write them: without the leading zero
+		r.insert("ratio".to_string(), match rng.below(8) {
+			0 => format!(".{}", rng.range(1, 99)),
+			1 => format!("-.{}", rng.range(1, 99)),
+			2 => format!("-{}.{}", rng.below(10), rng.range(1, 99)),
+			_ => format!("{}.{}", rng.below(10), rng.range(1, 99)),
+		});
 		r.insert("flag".to_string(), (*rng.pick(&["true", "false"])).to_string());
 		r.insert("note".to_string(), format!("n{}", rng.below(9)));
 		r.retain(|k, _| cols.contains(&k.as_str()));
@@ -148,6 +154,42 @@ pub fn gen_csv(rng: &mut Rng) -> CsvSpec {
 		rows.insert(id, r);
 	}
 	CsvSpec { text, id_col, rows }
+}
+
+/// the same table with the value cells of every row moved to the previous row (ids stay): other content, the
+/// same byte length. None if that changes nothing (no value columns, fewer than two rows, equal rows).
+pub fn csv_second_generation(csv: &CsvSpec) -> Option<CsvSpec> {
+	let mut lines = csv.text.lines();
+	let header = lines.next()?.to_string();
+	let cols: Vec<&str> = header.split(',').collect();
+	if cols.len() < 2 || cols[0] != csv.id_col {
+		return None;
+	}
+	let data: Vec<(String, String)> = lines.map(|l| l.split_once(',').map(|(a, b)| (a.to_string(), b.to_string()))).collect::<Option<Vec<_>>>()?;
+	if data.len() < 2 {
+		return None;
+	}
+	let mut text = header.clone();
+	text.push('\n');
+	let mut rows = BTreeMap::new();
+	for (i, (id, _)) in data.iter().enumerate() {
+		let rest = &data[(i + 1) % data.len()].1;
+		let cells: Vec<&str> = rest.split(',').collect();
+		if cells.len() != cols.len() - 1 {
+			return None;
+		}
+		let mut r = BTreeMap::new();
+		r.insert(csv.id_col.clone(), id.clone());
+		for (c, v) in cols[1..].iter().zip(cells) {
+			r.insert(c.to_string(), v.to_string());
+		}
+		rows.insert(id.clone(), r);
+		text.push_str(&format!("{id},{rest}\n"));
+	}
+	if text == csv.text || text.len() != csv.text.len() || rows.len() != csv.rows.len() {
+		return None;
+	}
+	Some(CsvSpec { text, id_col: csv.id_col.clone(), rows })
 }
 
 #[derive(Clone, Debug)]
